@@ -311,12 +311,45 @@ def ev_algebra(name, rec):
     rec.sample({'set': name, 'reachable_states_depth3': len(seen)})
 
 
+# --- two threads re-referencing / negating DIFFERENT sets at the same time ----------
+from gpmc import threads as _thr
+import datetime as _dtm
+import numpy as _tnp
+import geodepy.constants as _tgc
+import geodepy.transform as _tgt
+import geodepy.convert as _tgv
+import geodepy.geodesy as _tgg
+import geodepy.statistics as _tgs
+import geodepy.survey as _tsv
+import geodepy.angles as _tga
+_V1 = [[1e-4, 2e-5, -1e-5], [2e-5, 4e-4, 3e-5], [-1e-5, 3e-5, 9e-4]]
+_V2 = [[9e-3, -2e-3, 1e-3], [-2e-3, 5e-3, 2e-3], [1e-3, 2e-3, 7e-3]]
+def _tv(t):
+    return [t.from_datum, t.to_datum, str(t.ref_epoch)] + [getattr(t, f) for f in FIELDS + RATES] + \
+        ([sorted(vars(t.tf_sd).items())] if t.tf_sd is not None and hasattr(t.tf_sd, '__dict__') else [repr(t.tf_sd)])
+
+
+T_CALLS = {
+    'add_itrf05_2030': lambda: (lambda: _tv(_tgc.itrf2005_to_gda94 + _dtm.date(2030, 1, 1))),
+    'add_itrf14_08_1985': lambda: (lambda: _tv(_tgc.itrf2014_to_itrf2008 + _dtm.date(1985, 7, 1))),
+    'add_apm_2000': lambda: (lambda: _tv(_tgc.atrf2014_to_gda2020 + _dtm.date(2000, 2, 29))),
+    'add_itrf2020_88': lambda: (lambda: _tv(_tgc.itrf2020_to_itrf88 + _dtm.date(2010, 1, 1))),
+    'neg_itrf08': lambda: (lambda: _tv(-_tgc.itrf2008_to_gda94)),
+    'neg_itrf97': lambda: (lambda: _tv(-_tgc.itrf97_to_gda94)),
+    'iers': lambda: (lambda: _tv(_tgc.iers2trans('ITRF2020', 'ITRF2008', _dtm.date(2015, 1, 1), 0.2, 1.0, 3.3, -0.29, 0.01, -0.02, 0.03,
+                                                   0.0, -0.1, 0.1, 0.03, 0.001, 0.002, -0.003))),
+}
+_tg, _te = _thr.make(T_CALLS, ['geodepy/constants.py'], 'Transformation:threads',
+                     quick=['add_itrf05_2030', 'add_itrf14_08_1985', 'add_apm_2000', 'neg_itrf08'], triple=('add_itrf05_2030', 'add_apm_2000', 'neg_itrf97'))
+
+
 SUBCHECKS = [
     Sub('labels', gen_labels, ev_labels, chunk=500, floor=100, parallel=False, guard=True),
     Sub('reverse', gen_reverse, ev_reverse, chunk=500, floor=50, parallel=False, guard=True),
     Sub('triples', gen_triples, ev_triples, chunk=64, floor=300, guard=True, envs=4),
     Sub('iers', gen_iers, ev_iers, chunk=500, floor=100, parallel=False, guard=True),
     Sub('algebra', gen_algebra, ev_algebra, chunk=4, floor=90, guard=True, envs=2),
+    Sub('threads', _tg, _te, chunk=1, floor=3, poison=False),
 ]
 
 
